@@ -356,7 +356,33 @@ func c14Structure(c *Ctx) {
 			return phiTrue(fs) && hasCmp(fs, token.EQL, "KeyId", isPrimaryID) && hasCmp(fs, token.EQL, "Status", isEnabled)
 		}},
 	}
+	// the loop as an automaton over abstract keys: decides the guards whatever
+	// their spelling; the guard-shape rules below are the fallback when the loop
+	// does not fold exactly
+	auto := c14Auto(c, f, loop, elem)
+	autoNote := fmt.Sprintf("loop automaton: %d states, %d folded iterations over (primary ID?, status, duplicate ID?)", auto.States, auto.Steps)
+	autoCheck := func(name string, subsumedBy ...string) bool {
+		if !auto.Decided {
+			return false
+		}
+		msg := auto.Bad[name]
+		for _, s := range subsumedBy {
+			if msg == "" {
+				msg = auto.Bad[s]
+			}
+		}
+		r.Check(msg == "", "C14.structure", "C14.structure/Validate/"+name, p.FuncPos(f), msg, autoNote)
+		return true
+	}
 	for _, w := range wants {
+		if w.name == "second primary rejected" {
+			// a second key with the primary ID repeats an ID
+			if autoCheck(w.name, "duplicate key ID rejected") {
+				continue
+			}
+		} else if autoCheck(w.name) {
+			continue
+		}
 		found := false
 		for _, ret := range guard.Returns(f) {
 			if guard.DefinitelyFails(ret) && loop.Header.Dominates(ret.Block()) && w.pred(guard.BlockFacts(ret.Block())) {
@@ -385,6 +411,9 @@ func c14Structure(c *Ctx) {
 	})
 	r.Check(fed, "C14.structure", "C14.structure/Validate/ID map fed every iteration", p.FuncPos(f), "the duplicate-ID map is not updated on every iteration that continues", "keyIDs[key.KeyId]=true dominates every loop back edge")
 	// success only with a primary found and an enabled key
+	if autoCheck("success requires primary") && autoCheck("primary flag condition", "success requires primary") {
+		return
+	}
 	good := true
 	for _, ret := range guard.SuccessReturns(f) {
 		fs := guard.BlockFacts(ret.Block())
